@@ -472,4 +472,353 @@ theorem withinOne_of (v bits cs co ds d0 : Nat) (q : Q) (hp : phys bits cs co ds
       push_cast; linarith [h.2]
     exact_mod_cast this
 
+/-- converting a value into the unit it already has is the identity: `((v/S − O) + O)·S = v` -/
+theorem exactValue_same (v s o T : Nat) (h : exactValue v s o s o = some T) : T = v := by
+  unfold exactValue at h
+  cases hp : phys v s o s o with
+  | none => simp [hp] at h
+  | some q =>
+    simp only [hp] at h
+    -- the scale is not zero
+    have hS : ∃ qs, Q.ofF64 s = some qs ∧ qs.num ≠ 0 := by
+      unfold phys at hp
+      cases h1 : Q.ofF64 s with
+      | none => simp [h1] at hp
+      | some qs =>
+        refine ⟨qs, rfl, ?_⟩
+        intro hz
+        cases h2 : Q.ofF64 o with
+        | none => simp [h1, h2] at hp
+        | some qo => simp [h1, h2, hz] at hp
+    obtain ⟨qs, hqs, hnum⟩ := hS
+    obtain ⟨hdqs, fqs⟩ := ofF64_spec s qs hqs
+    obtain ⟨hden, CS, CO, DS, DO, f1, f2, f3, f4, hq⟩ := phys_spec v s o s o q hp
+    have e1 := isFin_unique _ _ _ f1 f3
+    have e2 := isFin_unique _ _ _ f2 f4
+    have e3 := isFin_unique _ _ _ f1 fqs
+    subst e1 e2
+    have hCS : CS ≠ 0 := by
+      rw [e3, toRat]
+      have : (qs.num : ℚ) ≠ 0 := by exact_mod_cast hnum
+      have : (qs.den : ℚ) ≠ 0 := by exact_mod_cast hdqs
+      positivity
+    have hval : toRat q = v := by rw [hq]; field_simp; ring
+    by_cases hc : q.isInt = true ∧ 0 ≤ q.floor ∧ q.floor < 2 ^ 32
+    · simp only [hc, and_self, if_true, Option.some.injEq] at h
+      obtain ⟨hint, h0, _⟩ := hc
+      unfold Q.isInt at hint
+      simp only [Bool.and_eq_true, bne_iff_ne, ne_eq, beq_iff_eq] at hint
+      have hdq : (q.den : ℚ) ≠ 0 := by exact_mod_cast hden
+      have hdiv : q.num = (q.den : Int) * q.floor := by
+        unfold Q.floor
+        have := Int.emod_add_mul_ediv q.num (q.den : Int)
+        rw [hint.2] at this; omega
+      have hfl : (q.floor : ℚ) = v := by
+        rw [← hval, toRat, hdiv]; push_cast; field_simp
+      have : q.floor = (v : Int) := by exact_mod_cast hfl
+      rw [← h, this]; simp
+    · exfalso
+      by_cases hcc : q.isInt = true ∧ 0 ≤ q.floor ∧ q.floor < 2 ^ 32
+      · exact hc hcc
+      · simp only [hcc, if_false] at h; cases h
+
+/-- error analysis of the component arithmetic for values up to 2^32 (accumulated totals), given that the physical
+value itself lies in [0, 2^32] -/
+theorem comp_bound32 (v CS CO DS DO q1 q2 q3 q4 : ℚ) (hv0 : 0 ≤ v) (hv : v ≤ 2 ^ 32) (hCS : 1 / 2 ≤ CS)
+    (hCO : |CO| ≤ 2 ^ 10) (hDS0 : 0 < DS) (hDS : DS ≤ 2 ^ 17) (hDO : |DO| ≤ 2 ^ 10)
+    (hp0 : 0 ≤ (v / CS - CO + DO) * DS) (hp : (v / CS - CO + DO) * DS ≤ 2 ^ 32)
+    (h1 : Near q1 (v / CS)) (h2 : Near q2 (q1 - CO)) (h3 : Near q3 (q2 + DO)) (h4 : Near q4 (q3 * DS)) :
+    |q4 - (v / CS - CO + DO) * DS| ≤ 1 / 2 ^ 10 := by
+  have hCSpos : 0 < CS := by linarith
+  have he := eta_le
+  set A := v / CS with hAdef
+  have hA0 : 0 ≤ A := div_nonneg hv0 hCSpos.le
+  have hA : A ≤ 2 ^ 33 := by
+    rw [hAdef, div_le_iff₀ hCSpos]
+    calc v ≤ 2 ^ 32 := hv
+      _ = 2 ^ 33 * (1 / 2) := by norm_num
+      _ ≤ 2 ^ 33 * CS := by gcongr
+  have hcd : |CO - DO| ≤ 2 ^ 11 := by
+    have := abs_sub CO DO
+    linarith
+  have hAD : A * DS ≤ 2 ^ 33 := by
+    have e : A * DS = (A - CO + DO) * DS + (CO - DO) * DS := by ring
+    have : (CO - DO) * DS ≤ 2 ^ 11 * 2 ^ 17 := by
+      calc (CO - DO) * DS ≤ |CO - DO| * DS := by gcongr; exact le_abs_self _
+        _ ≤ 2 ^ 11 * 2 ^ 17 := by gcongr
+    rw [e]; norm_num at this ⊢; linarith
+  have absA : |A| = A := abs_of_nonneg hA0
+  have e1 : |q1 - A| ≤ A / 2 ^ 53 + 1 / 2 ^ 80 := by
+    have := h1.1; rw [absA] at this; linarith
+  have hA53 : A / 2 ^ 53 ≤ 1 / 2 ^ 20 := by
+    rw [div_le_iff₀ (by positivity)]; norm_num at hA ⊢; linarith
+  have a1 : |q1| ≤ A + 1 := by
+    have := abs_sub_abs_le_abs_sub q1 A
+    rw [absA] at this
+    have : (1 : ℚ) / 2 ^ 20 + 1 / 2 ^ 80 ≤ 1 := by norm_num
+    linarith
+  have a1' : |q1 - CO| ≤ A + 1 + 2 ^ 10 := by
+    have := abs_sub q1 CO; linarith
+  have e2 : |q2 - (q1 - CO)| ≤ (A + 1 + 2 ^ 10) / 2 ^ 53 + 1 / 2 ^ 80 := by
+    have := h2.1
+    have : |q1 - CO| / 2 ^ 53 ≤ (A + 1 + 2 ^ 10) / 2 ^ 53 := by gcongr
+    linarith
+  have hsmall : (A + 2 ^ 12) / 2 ^ 53 ≤ 1 / 2 ^ 19 := by
+    rw [div_le_iff₀ (by positivity)]; norm_num at hA ⊢; linarith
+  have a2 : |q2| ≤ A + 2 + 2 ^ 10 := by
+    have := abs_sub_abs_le_abs_sub q2 (q1 - CO)
+    have : (A + 1 + 2 ^ 10) / 2 ^ 53 ≤ (A + 2 ^ 12) / 2 ^ 53 := by
+      apply div_le_div_of_nonneg_right _ (by positivity)
+      have : (1 : ℚ) + 2 ^ 10 ≤ 2 ^ 12 := by norm_num
+      linarith
+    have : (1 : ℚ) / 2 ^ 19 + 1 / 2 ^ 80 ≤ 1 := by norm_num
+    linarith
+  have a2' : |q2 + DO| ≤ A + 2 + 2 ^ 11 := by
+    have := abs_add_le q2 DO
+    have : (2 : ℚ) ^ 10 + 2 ^ 10 = 2 ^ 11 := by norm_num
+    linarith
+  have e3 : |q3 - (q2 + DO)| ≤ (A + 2 + 2 ^ 11) / 2 ^ 53 + 1 / 2 ^ 80 := by
+    have := h3.1
+    have : |q2 + DO| / 2 ^ 53 ≤ (A + 2 + 2 ^ 11) / 2 ^ 53 := by gcongr
+    linarith
+  -- error before the multiplication
+  have r3 : |q3 - (A - CO + DO)| ≤ (3 * A + 2 ^ 13) / 2 ^ 53 + 3 / 2 ^ 80 := by
+    have t : |q3 - (A - CO + DO)| ≤ |q3 - (q2 + DO)| + |q2 - (q1 - CO)| + |q1 - A| := by
+      have := abs_add_three (q3 - (q2 + DO)) (q2 - (q1 - CO)) (q1 - A)
+      calc |q3 - (A - CO + DO)| = |q3 - (q2 + DO) + (q2 - (q1 - CO)) + (q1 - A)| := by congr 1; ring
+        _ ≤ _ := this
+    have : A / 2 ^ 53 + (A + 1 + 2 ^ 10) / 2 ^ 53 + (A + 2 + 2 ^ 11) / 2 ^ 53 ≤ (3 * A + 2 ^ 13) / 2 ^ 53 := by
+      rw [← add_div, ← add_div]
+      apply div_le_div_of_nonneg_right _ (by positivity)
+      have : (1 : ℚ) + 2 ^ 10 + (2 + 2 ^ 11) ≤ 2 ^ 13 := by norm_num
+      linarith
+    linarith
+  have m3 : |q3 * DS - (A - CO + DO) * DS| ≤ 1 / 2 ^ 17 := by
+    have e : q3 * DS - (A - CO + DO) * DS = (q3 - (A - CO + DO)) * DS := by ring
+    rw [e, abs_mul, abs_of_pos hDS0]
+    calc |q3 - (A - CO + DO)| * DS ≤ ((3 * A + 2 ^ 13) / 2 ^ 53 + 3 / 2 ^ 80) * DS := by gcongr
+      _ = (3 * (A * DS) + 2 ^ 13 * DS) / 2 ^ 53 + 3 / 2 ^ 80 * DS := by ring
+      _ ≤ (3 * 2 ^ 33 + 2 ^ 13 * 2 ^ 17) / 2 ^ 53 + 3 / 2 ^ 80 * 2 ^ 17 := by gcongr
+      _ ≤ 1 / 2 ^ 17 := by norm_num
+  have a3 : |q3 * DS| ≤ 2 ^ 32 + 1 := by
+    have := abs_sub_abs_le_abs_sub (q3 * DS) ((A - CO + DO) * DS)
+    have hp' : |(A - CO + DO) * DS| ≤ 2 ^ 32 := by rw [abs_of_nonneg hp0]; exact hp
+    have : (1 : ℚ) / 2 ^ 17 ≤ 1 := by norm_num
+    linarith
+  have e4 : |q4 - q3 * DS| ≤ (2 ^ 32 + 1) / 2 ^ 53 + 1 / 2 ^ 80 := by
+    have := h4.1
+    have : |q3 * DS| / 2 ^ 53 ≤ (2 ^ 32 + 1) / 2 ^ 53 := by gcongr
+    linarith
+  have t4 : |q4 - (A - CO + DO) * DS| ≤ |q4 - q3 * DS| + |q3 * DS - (A - CO + DO) * DS| := by
+    have := abs_add_le (q4 - q3 * DS) (q3 * DS - (A - CO + DO) * DS)
+    calc |q4 - (A - CO + DO) * DS| = |q4 - q3 * DS + (q3 * DS - (A - CO + DO) * DS)| := by congr 1; ring
+      _ ≤ _ := this
+  have : ((2 : ℚ) ^ 32 + 1) / 2 ^ 53 + 1 / 2 ^ 80 + 1 / 2 ^ 17 ≤ 1 / 2 ^ 10 := by norm_num
+  linarith
+
+/-- the component arithmetic on the model for values up to 2^32 (accumulated totals) whose physical value lies in
+`[0, 2^32]`: a finite datum within 2^-10 of `((val/CS − CO) + DO)·DS`. -/
+theorem comp_fin32 (val : Nat) (hval : val ≤ 2 ^ 32) (cs co ds d0 : Nat) (hc : rangeOK cs co = true)
+    (hd : rangeOK ds d0 = true) :
+    ∃ CS CO DS DO : ℚ, IsFin cs CS ∧ IsFin co CO ∧ IsFin ds DS ∧ IsFin d0 DO ∧
+      (0 ≤ ((val : ℚ) / CS - CO + DO) * DS → ((val : ℚ) / CS - CO + DO) * DS ≤ 2 ^ 32 →
+        ∃ q : ℚ, IsFin (ScaleOffset.discard (ScaleOffset.apply (ofInt (val : Nat)) cs co) ds d0) q ∧
+          |q - ((val : ℚ) / CS - CO + DO) * DS| ≤ 1 / 2 ^ 10) := by
+  obtain ⟨CS, CO, fcs, fco, hco64, hCS, hCS', hCO⟩ := rangeOK_spec cs co hc
+  obtain ⟨DS, DO, fds, fdo, hdo64, hDS, hDS', hDO⟩ := rangeOK_spec ds d0 hd
+  refine ⟨CS, CO, DS, DO, fcs, fco, fds, fdo, ?_⟩
+  intro hp0 hp
+  have hCSpos : 0 < CS := by linarith
+  have hDSpos : 0 < DS := by linarith
+  have hv0 : (0 : ℚ) ≤ ((val : Int) : ℚ) := by simp
+  have hvq : ((val : Int) : ℚ) ≤ 2 ^ 32 := by
+    simp only [Int.cast_natCast]; exact_mod_cast hval
+  have hV := ofInt_fin (val : Int) (by simp; omega)
+  have b0 : |((val : Int) : ℚ) / CS| ≤ 2 ^ 33 := by
+    rw [abs_div, abs_of_pos hCSpos, abs_of_nonneg hv0, div_le_iff₀ hCSpos]
+    calc ((val : Int) : ℚ) ≤ 2 ^ 32 := hvq
+      _ = 2 ^ 33 * (1 / 2) := by norm_num
+      _ ≤ 2 ^ 33 * CS := by gcongr
+  obtain ⟨q1, f1, n1⟩ := div_fin _ cs _ CS hV fcs hCSpos.ne' (lt_big _ (by linarith [b0]))
+  have b1 : |q1| ≤ 2 ^ 34 := by
+    have := near_bound q1 _ _ n1 b0
+    have : (2 : ℚ) ^ 33 + 2 ^ 33 / 2 ^ 53 + 1 / 2 ^ 80 ≤ 2 ^ 34 := by norm_num
+    linarith
+  have b1' : |q1 - CO| ≤ 2 ^ 35 := by
+    have := abs_sub q1 CO
+    have : (2 : ℚ) ^ 34 + 2 ^ 10 ≤ 2 ^ 35 := by norm_num
+    linarith
+  obtain ⟨q2, f2, n2⟩ := sub_fin _ co hco64 q1 CO f1 fco (lt_big _ (by linarith [b1']))
+  have hp0' : 0 ≤ (((val : Int) : ℚ) / CS - CO + DO) * DS := by simpa using hp0
+  have hp' : (((val : Int) : ℚ) / CS - CO + DO) * DS ≤ 2 ^ 32 := by simpa using hp
+  by_cases hu : isUnit ds d0 = true
+  · obtain ⟨hs64, _⟩ := rangeOK_lt ds d0 hd
+    obtain ⟨e1, e0⟩ := unit_vals ds d0 DS DO hs64 hdo64 fds fdo hu
+    subst e1 e0
+    refine ⟨q2, ?_, ?_⟩
+    · simp only [ScaleOffset.discard, hu, if_true, ScaleOffset.apply]; exact f2
+    · have h3 : Near q2 (q2 + 0) := by
+        refine ⟨by simp; unfold eta; positivity, fun _ _ _ _ _ => by simp⟩
+      have h4 : Near q2 (q2 * 1) := by
+        refine ⟨by simp; unfold eta; positivity, fun _ _ _ _ _ => by simp⟩
+      have := comp_bound32 _ CS CO 1 0 q1 q2 q2 q2 hv0 hvq hCS hCO (by norm_num) (by norm_num) (by norm_num)
+        hp0' hp' n1 n2 h3 h4
+      simpa using this
+  · have hu' : isUnit ds d0 = false := by simpa using hu
+    have b2 : |q2| ≤ 2 ^ 36 := by
+      have := near_bound q2 _ _ n2 b1'
+      have : (2 : ℚ) ^ 35 + 2 ^ 35 / 2 ^ 53 + 1 / 2 ^ 80 ≤ 2 ^ 36 := by norm_num
+      linarith
+    have b2' : |q2 + DO| ≤ 2 ^ 37 := by
+      have := abs_add_le q2 DO
+      have : (2 : ℚ) ^ 36 + 2 ^ 10 ≤ 2 ^ 37 := by norm_num
+      linarith
+    obtain ⟨q3, f3, n3⟩ := add_fin _ d0 q2 DO f2 fdo (lt_big _ (by linarith [b2']))
+    have b3 : |q3| ≤ 2 ^ 38 := by
+      have := near_bound q3 _ _ n3 b2'
+      have : (2 : ℚ) ^ 37 + 2 ^ 37 / 2 ^ 53 + 1 / 2 ^ 80 ≤ 2 ^ 38 := by norm_num
+      linarith
+    have b3' : |q3 * DS| ≤ 2 ^ 55 := by
+      rw [abs_mul, abs_of_pos hDSpos]
+      calc |q3| * DS ≤ 2 ^ 38 * 2 ^ 17 := mul_le_mul b3 hDS' (by linarith) (by norm_num)
+        _ = 2 ^ 55 := by norm_num
+    obtain ⟨q4, f4, n4⟩ := mul_fin _ ds q3 DS f3 fds (lt_big _ (by linarith [b3']))
+    refine ⟨q4, ?_, ?_⟩
+    · simp only [ScaleOffset.discard, hu', Bool.false_eq_true, if_false, ScaleOffset.apply]; exact f4
+    · have := comp_bound32 _ CS CO DS DO q1 q2 q3 q4 hv0 hvq hCS hCO hDSpos hDS' hDO hp0' hp' n1 n2 n3 n4
+      simpa using this
+
+/-- **value of an expanded component on the model, for slices and accumulated totals up to 2^32.** With both pairs in
+range and a physical value in `[0, 2^32 − 1]`: the decoder's `uint32(math.Round(Discard(Apply(val …))))` is an integer
+within one unit of the physical value, and is the physical value itself whenever that is an integer. -/
+theorem comp_value32 (val : Nat) (hval : val ≤ 2 ^ 32) (cs co ds d0 : Nat) (hc : rangeOK cs co = true)
+    (hd : rangeOK ds d0 = true) :
+    ∃ CS CO DS DO : ℚ, IsFin cs CS ∧ IsFin co CO ∧ IsFin ds DS ∧ IsFin d0 DO ∧
+      (0 ≤ ((val : ℚ) / CS - CO + DO) * DS → ((val : ℚ) / CS - CO + DO) * DS ≤ 2 ^ 32 - 1 →
+        |((Fit.Expand.componentValue val cs co ds d0 : Nat) : ℚ) - ((val : ℚ) / CS - CO + DO) * DS| ≤ 1 ∧
+        ∀ e : Int, ((val : ℚ) / CS - CO + DO) * DS = e → (Fit.Expand.componentValue val cs co ds d0 : Int) = e) := by
+  obtain ⟨CS, CO, DS, DO, f1, f2, f3, f4, hfin⟩ := comp_fin32 val hval cs co ds d0 hc hd
+  refine ⟨CS, CO, DS, DO, f1, f2, f3, f4, ?_⟩
+  intro h0 h32
+  obtain ⟨q, fq, hq⟩ := hfin h0 (by linarith)
+  set phys := ((val : ℚ) / CS - CO + DO) * DS with hphys
+  have hql := abs_le.mp hq
+  have hqabs : |q| < 2 ^ 52 := by
+    rw [abs_lt]; constructor <;> norm_num at * <;> linarith
+  obtain ⟨i, fi, hi⟩ := round_fin_le _ q fq hqabs
+  have hil := abs_le.mp hi
+  have hi0 : 0 ≤ i := by
+    have : (-1 : ℚ) < (i : ℚ) := by norm_num at *; linarith
+    have : (-1 : Int) < i := by exact_mod_cast this
+    omega
+  have hi32 : i < 2 ^ 32 := by
+    have : (i : ℚ) < 2 ^ 32 := by norm_num at *; linarith
+    have : (i : ℚ) < ((2 ^ 32 : Int) : ℚ) := by push_cast; linarith
+    exact_mod_cast this
+  have hcv : Fit.Expand.componentValue val cs co ds d0 = i.toNat := by
+    unfold Fit.Expand.componentValue
+    rw [cvt_int .u32 (by decide) _ i fi (by
+      simp only [InRange, IntTy.signed, IntTy.bits, Bool.false_eq_true, if_false]; exact ⟨hi0, hi32⟩)]
+    simp only [wrap, IntTy.bits]
+    congr 1
+    exact Int.emod_eq_of_lt hi0 (by simpa using hi32)
+  have hcast : ((i.toNat : Nat) : Int) = i := Int.toNat_of_nonneg hi0
+  have hcastq : ((i.toNat : Nat) : ℚ) = (i : ℚ) := by
+    have : (((i.toNat : Nat) : Int) : ℚ) = (i : ℚ) := by rw [hcast]
+    rw [← this]; norm_cast
+  rw [hcv, hcastq]
+  constructor
+  · rw [abs_le]; constructor <;> norm_num at * <;> linarith
+  · intro e he
+    rw [hcast]
+    have : |((i - e : Int) : ℚ)| < 1 := by
+      push_cast; rw [← he, abs_lt]; constructor <;> norm_num at * <;> linarith
+    rw [← Int.cast_abs] at this
+    have : |i - e| < 1 := by exact_mod_cast this
+    have := abs_lt.mp this
+    omega
+
+theorem exactValue_intro (bits cs co ds d0 n : Nat) (q : Q) (hp : phys bits cs co ds d0 = some q) (hden : q.den ≠ 0)
+    (hq : toRat q = (n : ℚ)) (hn : n < 2 ^ 32) : exactValue bits cs co ds d0 = some n := by
+  unfold exactValue
+  rw [hp]
+  have hdq : (q.den : ℚ) ≠ 0 := by exact_mod_cast hden
+  have hnum : q.num = (n : Int) * (q.den : Int) := by
+    have : (q.num : ℚ) = (n : ℚ) * (q.den : ℚ) := by
+      rw [← hq, toRat]; field_simp
+    exact_mod_cast this
+  have hdi : (q.den : Int) ≠ 0 := by exact_mod_cast hden
+  have hfloor : q.floor = (n : Int) := by
+    unfold Q.floor; rw [hnum]; exact Int.mul_ediv_cancel _ hdi
+  have hint : q.isInt = true := by
+    unfold Q.isInt
+    simp only [Bool.and_eq_true, bne_iff_ne, ne_eq, beq_iff_eq]
+    exact ⟨hden, by rw [hnum]; exact Int.mul_emod_left _ _⟩
+  have hcond : q.isInt = true ∧ 0 ≤ q.floor ∧ q.floor < 2 ^ 32 := by
+    refine ⟨hint, by rw [hfloor]; exact Int.natCast_nonneg _, ?_⟩
+    rw [hfloor]; exact_mod_cast hn
+  simp only
+  rw [if_pos hcond, hfloor, Int.toNat_natCast]
+
+/-- all four scale/offset data of a determined physical value are finite and the first scale is not zero -/
+theorem phys_some (bits cs co ds d0 : Nat) (q : Q) (hp : phys bits cs co ds d0 = some q) :
+    ∃ qcs qco qds qdo, Q.ofF64 cs = some qcs ∧ Q.ofF64 co = some qco ∧ Q.ofF64 ds = some qds ∧ Q.ofF64 d0 = some qdo ∧
+      qcs.num ≠ 0 := by
+  unfold phys at hp
+  cases h1 : Q.ofF64 cs with
+  | none => simp [h1] at hp
+  | some qcs =>
+    cases h2 : Q.ofF64 co with
+    | none => simp [h1, h2] at hp
+    | some qco =>
+      cases h3 : Q.ofF64 ds with
+      | none => simp [h1, h2, h3] at hp
+      | some qds =>
+        cases h4 : Q.ofF64 d0 with
+        | none => simp [h1, h2, h3, h4] at hp
+        | some qdo =>
+          refine ⟨qcs, qco, qds, qdo, rfl, rfl, rfl, rfl, ?_⟩
+          intro hz
+          simp [h1, h2, h3, h4, hz] at hp
+
+/-- **a seed is the total whose physical value is exactly the wire value**: if `((v/DS − DO) + CO)·CS` is the whole
+number `T` (of component units), then the physical value of `T`, `((T/CS − CO) + DO)·DS`, is exactly `v` -/
+theorem seed_inverse (v cs co ds d0 T : Nat) (hv : v < 2 ^ 32) (hseed : exactValue v ds d0 cs co = some T)
+    (hcs : ∃ q, Q.ofF64 cs = some q ∧ q.num ≠ 0) : exactValue T cs co ds d0 = some v := by
+  have hseed' := hseed
+  unfold exactValue at hseed'
+  cases hp : phys v ds d0 cs co with
+  | none => simp [hp] at hseed'
+  | some q0 =>
+    obtain ⟨qds, qdo, qcs, qco, e1, e2, e3, e4, hdsnum⟩ := phys_some v ds d0 cs co q0 hp
+    obtain ⟨qcs', e3', hcsnum⟩ := hcs
+    rw [e3] at e3'; cases e3'
+    -- the forward physical value exists
+    have hp2 : ∃ q, phys T cs co ds d0 = some q := by
+      unfold phys; simp [e1, e2, e3, e4, hcsnum]
+    obtain ⟨q, hq⟩ := hp2
+    obtain ⟨hden, CS, CO, DS, DO, f1, f2, f3, f4, hval⟩ := phys_spec T cs co ds d0 q hq
+    obtain ⟨_, DS', DO', CS', CO', g1, g2, g3, g4, hT⟩ := exactValue_spec v ds d0 cs co T hseed
+    have u1 := isFin_unique _ _ _ f1 g3
+    have u2 := isFin_unique _ _ _ f2 g4
+    have u3 := isFin_unique _ _ _ f3 g1
+    have u4 := isFin_unique _ _ _ f4 g2
+    subst u1 u2 u3 u4
+    obtain ⟨dcs, fcs⟩ := ofF64_spec cs qcs e3
+    obtain ⟨dds, fds⟩ := ofF64_spec ds qds e1
+    have hCS : CS ≠ 0 := by
+      rw [isFin_unique _ _ _ f1 fcs, toRat]
+      have : (qcs.num : ℚ) ≠ 0 := by exact_mod_cast hcsnum
+      have : (qcs.den : ℚ) ≠ 0 := by exact_mod_cast dcs
+      positivity
+    have hDS : DS ≠ 0 := by
+      rw [isFin_unique _ _ _ f3 fds, toRat]
+      have : (qds.num : ℚ) ≠ 0 := by exact_mod_cast hdsnum
+      have : (qds.den : ℚ) ≠ 0 := by exact_mod_cast dds
+      positivity
+    refine exactValue_intro T cs co ds d0 v q hq hden ?_ hv
+    rw [hval, ← hT]
+    field_simp
+    ring
+
 end Fit.C05L
